@@ -83,6 +83,8 @@ class Flow:
             f = c.func
             if isinstance(f, ast.Name) and f.id in TOTAL_BUILTINS:
                 continue
+            if isinstance(f, ast.Attribute) and f.attr in ("items", "keys", "values") and not c.args and not c.keywords and isinstance(f.value, ast.Name):
+                continue          # the views of a local dictionary: total like zip / enumerate
             if self.c.call_may_raise(c):
                 return True
         return False
